@@ -4,33 +4,34 @@ package sim
 
 // Feat are the swarm knobs of one run.
 type Feat struct {
-	NT         int // payload types K0..K(NT-1)
-	Names      []string
-	Groups     []string
-	MaxScopes  int
-	MaxDepth   int
-	MaxOps     int
-	Export     bool
-	Objects    bool
-	Optional   bool
-	Soft       bool
-	Flatten    bool
-	As         bool
-	Decorators bool
-	GroupDecs  bool
-	Variadic   bool
-	Callbacks  bool
-	Info       bool
-	NamedSlice bool
-	Wild       float64 // probability that a constructor ignores the rank discipline
-	PAvail     float64 // probability of picking an available dependency
-	PDup       float64 // probability of deliberately colliding with a provided key
-	FaultRate  float64
-	FaultInv   float64
-	PRetry     float64
-	Slow       bool
-	VisStr     float64 // probability weight of Visualize/String ops
-	Catalog    bool
+	NT            int // payload types K0..K(NT-1)
+	Names         []string
+	Groups        []string
+	MaxScopes     int
+	MaxDepth      int
+	MaxOps        int
+	Export        bool
+	Objects       bool
+	Optional      bool
+	Soft          bool
+	Flatten       bool
+	As            bool
+	Decorators    bool
+	GroupDecs     bool
+	Variadic      bool
+	Callbacks     bool
+	Info          bool
+	NamedSlice    bool
+	Wild          float64 // probability that a constructor ignores the rank discipline
+	PAvail        float64 // probability of picking an available dependency
+	PDup          float64 // probability of deliberately colliding with a provided key
+	FaultRate     float64
+	FaultInv      float64
+	PRetry        float64
+	Slow          bool
+	VisStr        float64 // probability weight of Visualize/String ops
+	Catalog       bool
+	DecoIntroduce bool // allow decorators for keys nobody provides (DESIGN §9 R3)
 }
 
 type genCtx struct {
@@ -325,10 +326,12 @@ func (g *genCtx) genDecorator(s int) *Func {
 	seen := map[Key]bool{}
 	for i := 0; i < n; i++ {
 		var k Key
-		if len(av) > 0 && g.r.P(0.9) {
+		if len(av) > 0 && (g.r.P(0.97) || !g.ft.DecoIntroduce) {
 			k = av[g.r.Intn(len(av))]
-		} else {
+		} else if g.ft.DecoIntroduce {
 			k, _ = g.randomKey(g.ft.NT, groups)
+		} else {
+			continue
 		}
 		if seen[k] || IsIface(k.T) {
 			continue
@@ -340,6 +343,10 @@ func (g *genCtx) genDecorator(s int) *Func {
 		keys = append(keys, k)
 	}
 	if len(keys) == 0 {
+		if !g.ft.DecoIntroduce {
+			g.h.Funcs = g.h.Funcs[:len(g.h.Funcs)-1]
+			return nil
+		}
 		k, _ := g.randomKey(g.ft.NT, false)
 		keys = append(keys, k)
 	}
@@ -417,6 +424,10 @@ func (g *genCtx) opProvide(s int) {
 
 func (g *genCtx) opDecorate(s int) {
 	f := g.genDecorator(s)
+	if f == nil {
+		g.opProvide(s)
+		return
+	}
 	i := g.addOp(Op{Kind: OpDecorate, Scope: s, Fn: f.ID})
 	if g.m.PredictDecorate(s, f) == PredOK {
 		g.m.AddDec(s, i, f)
